@@ -916,7 +916,7 @@ func runC19(e *Env) error {
 		"(all encoded lengths, case-mapping oddities, every kind of invalid sequence); lists, []int, []string, [n]T arrays, map[string]T of length 0–6; " +
 		"slice start/length ∈ [−8,8] ∪ {omitted, null} ∪ int64 extremes and non-int argument types; separators of length 0–2; numbers = decimals m/10^k " +
 		"incl. every tie, negatives, ±2^53. A case is non-trivial when its input is not null; distinct by (filter, value, args)."
-	steps := []func(*Env) error{f19regressions, f19unicodeFacts, f19strings, f19slices, f19lists, f19joinSplit, f19defaults, f19mergeKeys, f19numbers, f19templates}
+	steps := []func(*Env) error{f19regressions, f19unicodeFacts, f19strings, f19slices, f19lists, f19joinSplit, f19defaults, f19mergeKeys, f19numbers, f19templates, f19siblings}
 	for _, s := range steps {
 		if err := s(e); err != nil {
 			return err
@@ -2036,3 +2036,45 @@ func f19templates(e *Env) error {
 
 // letters that survive the default output escaping unchanged
 var f19safeLetters = []string{"a", "b", "Z", "q", " ", "-", "1", "é", "É", "ß", "ǆ", "€", "世", "😀", " ", " ", "\x80", "\xc3", "\xff", ","}
+
+// f19siblings: two values derived from one base by list filters do not influence each other or the base: deriving
+// both in one template (the base bound once) gives what deriving each from a fresh base gives.
+func f19siblings(e *Env) error {
+	r := e.Rep
+	spareI := make([]interface{}, 3, 16)
+	copy(spareI, []interface{}{"p", "q", "r"})
+	spareS := make([]string, 2, 9)
+	copy(spareS, []string{"m", "n"})
+	mkctx := func() map[string]any {
+		a := make([]interface{}, 3, 16)
+		copy(a, spareI)
+		b := make([]string, 2, 9)
+		copy(b, spareS)
+		return map[string]any{"xs": a, "ss": b, "is": []int{5, 6, 7}, "m": map[string]interface{}{"x": 1, "y": 2}}
+	}
+	bases := []string{"[1, 2, 3]|merge([4])", "[1, 2, 3, 4, 5]|slice(0, 3)", "range(1, 4)", "'a,b,c'|split(',')", "[3, 1, 2]|sort", "{'x': 1, 'y': 2}|keys", "[1, 2, 3]|reverse",
+		"xs", "xs|slice(0, 2)", "ss", "ss|merge(['t'])", "is", "is|slice(1, 2)", "m|keys", "xs|merge(ss)", "[1, 2]|merge([3])|merge([4])|slice(0, 3)"}
+	ops := []string{"merge(['L'])", "merge(['R'])", "merge([9, 9, 9, 9, 9])", "reverse", "sort", "slice(0, 2)|merge(['S'])", "merge([1])|merge([2])", "slice(1)"}
+	for _, b := range bases {
+		for _, f := range ops {
+			for _, g := range ops {
+				if f == g || r.Full() {
+					continue
+				}
+				both := "{% set base = " + b + " %}{% set l = base|" + f + " %}{% set r = base|" + g + " %}{{ l|json_encode|raw }}\x1e{{ r|json_encode|raw }}\x1e{{ base|json_encode|raw }}\x1e{{ l|json_encode|raw }}"
+				sep := "{{ (" + b + ")|" + f + "|json_encode|raw }}\x1e{{ (" + b + ")|" + g + "|json_encode|raw }}\x1e{{ (" + b + ")|json_encode|raw }}\x1e{{ (" + b + ")|" + f + "|json_encode|raw }}"
+				x, y := renderSrc(both, mkctx()), renderSrc(sep, mkctx())
+				r.Seen("sib:"+b+"|"+f+"|"+g, true)
+				r.Hit("sibling-derivations")
+				if x.Class != y.Class || x.Out != y.Out {
+					if r.Violate(Violation{Key: "sibling-results-influence-each-other", What: fmt.Sprintf("base = %s; base|%s and base|%s derived side by side give %q (%s), each from a fresh base %q (%s)", b, f, g, x.Out, x.Class, y.Out, y.Class),
+						Broken: "C19 filter semantics are functions of their input (implementation-only metamorphic oracle; Flt.merge/slice are pure in the model)",
+						Replay: map[string]any{"kind": "src", "src": both, "separately": sep, "got": x.Out, "want": y.Out}}) {
+						return nil
+					}
+				}
+			}
+		}
+	}
+	return nil
+}
